@@ -38,9 +38,10 @@ Definition chk (d : nat) (L : gexpr) (M : res) (R : gexpr) (T : option tensor) :
   let dl := gden true d SNone L in
   let dr := gden true d SNone R in
   let dm := rden d M in
-  [rcode M; cmp dm dr; cmp dr dl; cmp dm dl; match T with Some t => cmp (Some t) dl | None => 9 end].
+  [rcode M; cmp dm dr; cmp dr dl; cmp dm dl; match T with Some t => cmp (Some t) dl | None => 9 end;
+   match dl with Some _ => 0 | None => 3 end].
 Definition chk_err (d : nat) (L : gexpr) (M : res) : list nat :=
-  [rcode M; match gden true d SNone L with Some _ => 0 | None => 3 end; 9; 9; 9].
+  [rcode M; 9; 9; 9; 9; match gden true d SNone L with Some _ => 0 | None => 3 end].
 """
 
 
@@ -553,6 +554,7 @@ def main(run, replay=None):
             code[ci] = v
             marm[ci] = st
     coq_single_failed = []
+    infra = []
     if retry:
         out2 = run.coq_eval_many(retry, timeout=240)
         for name, (rc, out) in out2.items():
@@ -565,8 +567,12 @@ def main(run, replay=None):
             elif rc == 124 or "timeout" in out.lower() or rc == 137:
                 coq_single_failed.append(ci)          # too heavy for the kernel: decided by the oracle only
             else:
-                run.report({"kind": "cases-file"}, "generated case file did not evaluate", {"file": name, "log": out[-1500:], "case": cases[ci]},
-                           found_input=False, theorem_or_case=name)
+                infra.append((name, out[-1500:], ci))
+        if infra:
+            # one report, not one per case: when every file fails the Coq environment itself is broken
+            name, log, ci = infra[0]
+            run.report({"kind": "cases-file"}, "generated case file(s) did not evaluate (%d)" % len(infra),
+                       {"file": name, "log": log, "case": cases[ci]}, found_input=False, theorem_or_case=name)
     t_coq = time.time() - t_coq
     # ---- decide
     stats = {"proved_equal_to_literal": 0, "checker_incomplete": 0, "oracle_checked": 0, "oracle_failures": 0,
@@ -614,8 +620,8 @@ def main(run, replay=None):
         stats["tag_agrees" if tag_ok else "tag_mismatch"] += 1
         if not tag_ok and len(tag_mismatches) < 10:
             tag_mismatches.append({"case": c, "impl_arm": r.get("arm"), "model_arm": marm.get(ci)})
-        mcode, c_mr, c_rl, c_ml, c_tl = v
-        lit_coq = (c_rl != 3)
+        mcode, c_mr, c_rl, c_ml, c_tl, c_lit = v
+        lit_coq = (c_lit == 0)
         if bool(orc.get("lit_ok")) != lit_coq and "error" not in orc:
             stats["typing_disagreement"] += 1
             if len(typing_samples) < 6:
